@@ -1437,6 +1437,7 @@ private:
       {
         // check the queues are empty each time before removing a logger to avoid
         // potential race condition of the logger* still being in the queue
+        QUILL_VERIF_POINT(9, nullptr);
         return _check_frontend_queues_and_cached_transit_events_empty();
       });
 
